@@ -20,32 +20,32 @@ NA = {
 PENDING = {}
 CLAIMED = {
 "C09": dict(engine="concsim", cat="exploration", ref="DESIGN.md 5.5",
-  technique="deterministic simulation: independent build+render jobs as tasks of a seeded cooperative (baton) scheduler with a yield before every statement of package jen (random-walk and PCT strategies), solo-run reference, invariant on jen's package-level state; Code values shared between sequentially rendered Files; auxiliary real-goroutine leg under the race detector",
+  technique="deterministic simulation: independent build+render+save jobs as tasks of a seeded cooperative (baton) scheduler with a yield before every statement of package jen (random-walk, PCT and hot-spot strategies; sync primitives, sync.Pool and the clock owned by the simulator), solo-run reference from pristine process state, invariant on jen's package-level state, shared names table and shared Code values; deadlocks reported through the Go runtime's detector; auxiliary real-goroutine leg under the race detector",
   text="O1: every job's result (bytes, error class, panic) interleaved with the others, and run after the others in a seeded order, equals the same job run alone from pristine package state; O2: a deep digest of everything reachable from jen's package-level variables never moves away from its process-start value (enforced while the package uses no sync/atomic); share mode: Files with different settings sharing sub-statements render as private rebuilds do; O3 (auxiliary, outside the technique family, sound): the same kind of jobs on 16 real goroutines of the unrewritten package under go's race detector.",
   note="The scheduler serialises tasks, so it cannot show a data race by itself (hand-offs are happens-before edges): O2 and O3 carry that part of the statement; the O3 schedule is the Go runtime's and its replay file is the workload plus a repeat count. Blocking sync primitives inside jen are redirected to scheduler-aware wrappers by the rewriter; goroutines spawned inside jen are reported, not scheduled."),
 "C20": dict(engine="clonesim", cat="exploration", ref="DESIGN.md 5.7",
   technique="deterministic simulation: original and nested clones as logical actors, seeded interleaving of appends of varying width against a per-actor list model, every actor rendered after every step",
-  text="Seeded histories of Clone and append operations (widths 1..9 so that slice capacity is and is not exhausted at clone time, probe counted); after every step every actor must render its own tokens in order after a prefix that is its parent's rendering at clone time or now; a fresh clone renders byte-identically to its parent.",
+  text="Seeded histories of Clone and append operations (Dot, Call, Index, Assert, qualified arguments, Add of 1..9 items, nil items, struct tags, the original's own slice spread into a clone; empty originals; a case-clause scenario with Blocks on clones) so that slice capacity is and is not exhausted at clone time (probe counted); after every step every actor is observed formatted and raw (inside a NoFormat File) and must render its own tokens in order after a prefix that is its parent's rendering at clone time or now; a fresh clone renders like its parent.",
   note="Token streams are compared with go/scanner (layout-insensitive); both a wrapping clone and a copying clone are accepted, as the statement allows."),
 "C10": dict(engine="filesim", cat="fault_enumeration", ref="DESIGN.md 5.6",
   technique="deterministic simulation with fault injection: fault plans at the caller's io.Writer (error / short write at the k-th Write) and at the os boundary under File.Save (real ENOENT/EISDIR/ENOTDIR situations in a sandbox; injected EACCES/ENOSPC/EIO with partial writes), enumerated over a fixed grid and sampled by seed; reference = fault-free rebuild of the same history",
-  text="A fixed grid (5 trees x 7 entry points x every fault kind, 300 cells) is enumerated exhaustively on every run; beyond it trees, histories and fault plans are sampled by seed. A1: failed render => the writer got 0 bytes / the Save target is untouched; A2: a fired writer or filesystem fault => non-nil error; A3: success => writer content and saved file equal the bytes of an independent fault-free rebuild; A4: success/failure agrees with that rebuild when no fault fired.",
+  text="A fixed grid (5 trees x 7 entry points x every fault kind, 355 cells) is enumerated on every run; beyond it trees (incl. unrenderable ones, 33-140 KB outputs, non-identifier package names), histories (repeated Saves to one path after the world changed, failure bursts) and fault plans (writer error/short write at Write 1..5, re-entrant writer, EACCES/ENOSPC/EIO with partial writes at the 1st/2nd filesystem call, read-only and long existing targets) are sampled by seed. A1: failed render => the writer got 0 bytes / the Save target is untouched; A2/A3: a nil return means the writer/target holds exactly the bytes of an independent fault-free rebuild, in this world and in a world where no fault ever fired; A4: success/failure agrees with that rebuild when no fault fired.",
   note="Filesystem faults are injected at the package-level os functions and *os.File methods the rewriter redirects (listed in evidence as os_calls_redirected; anything else is reported as unintercepted); contract-violating writers (short count with nil error) are not injected; nothing is claimed about the target's content after a failed write."),
 "C03": dict(engine="filesim", cat="exploration", ref="DESIGN.md 5.1",
   technique="deterministic simulation: seeded File-lifecycle histories (hint/Anon/prefix/add/render in any order) under simulator-chosen map order; each rendered File's import bindings resolved against fabricated packages (own resolver + go/types)",
-  text="Seeded exploration of histories over a collision-rich universe of import paths. Every successfully rendered File is read back: the import block's bindings (alias, or the package's true declared name when no alias is written) must bind the qualifier in front of each workload symbol to the path it was built with, uniquely and consistently; go/types with fabricated packages gives a second opinion on scoping.",
+  text="Seeded exploration of histories (ImportName/ImportNames/ImportAlias/Anon/PackagePrefix/CgoPreamble/add/render in any order) over a collision-rich universe of import paths (shared base names, keywords, digits, unicode, leading punctuation, upper case, trailing slashes, std pairs, the cgo pseudo-package). Every successfully rendered File is read back: the import block's bindings (alias, or the package's true declared name when no alias is written) must bind the qualifier in front of each workload symbol to the path it was built with, uniquely and consistently; an import block that does not parse binds nothing; go/types with fabricated packages gives a second opinion on scoping.",
   note="Declared names of fabricated packages are chosen by the workload, those of std packages are Go facts checked against GOROOT/src by selftest; dot-aliases are outside the statement (C06) and not generated; a render that returns an error is outside the statement and only counted (vacuity guard at 20%)."),
 "C08": dict(engine="filesim", cat="exploration", ref="DESIGN.md 5.3",
   technique="deterministic simulation: seeded operation histories on one File (renders, fragment renders, additions, late hints, failing writers) with simulator-chosen map order changing between renders; idempotence and name-stability oracle over the recorded history",
-  text="Seeded exploration of histories over one File and its fragments. R1: two renders of one object with nothing state-changing in between are byte-identical and end the same way; R2: the qualifier a path first appeared under (read out of the outputs) is used by every later output and bound by every later import block; R3: a failed write changes neither.",
+  text="Seeded exploration of histories over one File and its fragments (File.Render/GoString, Statement/Group.RenderWithFile and Render, f.Group.RenderWithFile, Add, additions inside function bodies, late ImportName/ImportAlias incl. dot, late PackagePrefix, Anon on not-yet-referenced paths, failing writers, failure bursts). R1: two renders of one object with nothing state-changing in between are byte-identical and end the same way; R2: the qualifier a path first appeared under is used by every later output and bound by every later import block; R3: a failed write changes neither; R4: what was added to the File shows in every later render.",
   note="Trusts go/scanner/go/parser to read names out of outputs; stays inside the stated domain (Anon only on never-referenced paths). Equal-text Dict keys and Dict-key registration order are open findings shared with C07."),
 "C07": dict(engine="filesim", cat="exploration", ref="DESIGN.md 5.2",
-  technique="deterministic simulation: seeded search over map-iteration orders (every map range of package jen rewritten to a simulator-chosen permutation), byte comparison of repeated fresh builds; thorough adds a real-runtime cross-process leg",
-  text="Seeded exploration: each run builds one generated File history K times from scratch, each time with every map range in package jen iterating in a different simulator-chosen order, and compares all rendered bytes. Sampling, not proof; what it adds over the tests is control of the one source of nondeterminism the property is about.",
+  technique="deterministic simulation: seeded search over map-iteration orders (content-addressed permutation decisions for every map range of package jen), repeated fresh builds from pristine and from polluted process state, byte comparison; cross-process leg on the unrewritten package with forward/reverse process histories, differences pinned back into simulation",
+  text="Each run builds one generated File history K times from scratch; every execution gets its own order for every map range in package jen, odd executions start after unrelated Files were built (sometimes into failing writers) from pristine package state; all rendered bytes are compared. A second leg builds order-independent recipes in fresh processes of the unrewritten package (real map order, real addresses, forward and reverse histories); the determinism gate's own cross-process comparison of rendered bytes also counts. Sampling, not proof.",
   note="Trusts the AST rewrite (any permutation of a key snapshot is an order Go allows), go/format, and that map order is the only incidental state (address order is perturbed between builds but not controlled). Two open findings in known_findings.json are attributed by neutralising exactly their trigger."),
 "C16": dict(engine="filesim", cat="exploration", ref="DESIGN.md 5.4",
   technique="deterministic simulation: seeded Dicts rendered under simulator-chosen iteration orders of every map range, parsed pairs checked against a list model with unique value markers",
-  text="Seeded exploration of Dict shapes (0..16 pairs, equal-text keys, prefix chains, null sides, nesting, map/struct/slice contexts) x iteration orders; oracle parses the output and compares the multiset and order of (key atoms, value marker) pairs with the model.",
+  text="Seeded exploration of Dict shapes (0..16 pairs, equal-text keys, prefix chains, null sides, values filled in between two renders, nesting in keys and values, map/struct/slice contexts, awkward string literals) x iteration orders; oracle parses every render and compares the multiset and order of (key atoms, value marker) pairs with the model as it stands at that point of the history.",
   note="Trusts go/parser and the rewrite; key identity is compared by the multiset of identifiers/literals in the key (independent of import aliases), so two keys with identical atoms are interchangeable for the oracle."),
 }
 def main():
